@@ -122,6 +122,7 @@ structure Sess where
   posts : Nat             -- ghost: POSTs in progress on this session
   idleSince : Nat         -- ghost: instant at which `refs` last dropped to 0
   closeErr : Bool         -- closing the connection reported an error: what every `Close()` returns
+  upl : Nat := 0          -- ghost: POSTs in progress whose body has not arrived yet (counted in `posts` too)
 deriving DecidableEq, Repr
 
 structure Cfg where
@@ -150,6 +151,8 @@ def State.replayFails (s : State) : Bool := s.cfg.eventStore && s.faults.after
 
 inductive Label where
   | postBegin (sid : Option Nat) (u : User) (k : Kind)
+  | postHead (sid : Option Nat) (u : User)
+  | postBody (sid : Nat) (k : Kind)
   | handlerDone (sid : Nat) (isInit : Bool)
   | publish (sid : Nat)
   | postEnd (sid : Option Nat) (creator : Bool)
@@ -223,6 +226,16 @@ def deliver (ok : Bool) (k : Kind) (e : Sess) : Sess :=
     | .notif => e
 
 def startPost (ok : Bool) (k : Kind) (e : Sess) : Sess := deliver ok k (startTimer e)
+
+/-- The request HEADERS of a POST have arrived (`lookupSession`, `startPOST`); the transport now reads the
+body, which is still on its way: the POST is in progress, nothing has been handed over. -/
+def headF (e : Sess) : Sess := { startTimer e with upl := e.upl + 1 }
+
+/-- The body of such a POST is complete: the message is handed to the server session (if its `Close`
+has not begun — on a session that is closed and gone nothing is delivered). -/
+def bodyF (ok : Bool) (k : Kind) (e : Sess) : Option Sess :=
+  if e.upl = 0 || e.pending.isSome then none
+  else some (deliver ok k { e with upl := e.upl - 1 })
 
 /-- The transport can open the stream a POST of kind `k` needs. -/
 def State.accepts (s : State) (k : Kind) : Bool := !(k.hasCall && s.openFails)
@@ -330,6 +343,21 @@ def stepStateful (s : State) : Label → Option (State × Resp)
     | .error st => some (s, .reject st)
     | .ok e =>
       match modify i (fun x => some (startPost (s.accepts k) k x)) s.tbl with
+      | none => none
+      | some t => some ({ s with tbl := t }, postResp s k (if k.isInitialize then some i else none) e.closing)
+  | .postHead none _ => none     -- (a creating POST reads its body after the publication: not modelled apart)
+  | .postHead (some i) u =>
+    match lookup s.tbl i u with
+    | .error st => some (s, .reject st)
+    | .ok e =>
+      match modify i (fun x => some (headF x)) s.tbl with
+      | none => none
+      | some t => some ({ s with tbl := t }, .forward none (!e.closing))
+  | .postBody i k =>
+    match findSess i s.tbl with
+    | none => none
+    | some e =>
+      match modify i (bodyF (s.accepts k) k) s.tbl with
       | none => none
       | some t => some ({ s with tbl := t }, postResp s k (if k.isInitialize then some i else none) e.closing)
   | .handlerDone i isInit =>
